@@ -94,7 +94,9 @@ SwapNext(st, u, dir, offer, o, to) ==
                 !.feeAll = Add2(st.feeAll, ask, o.pf),
                 !.burned = Add2(st.burned, ask, o.bf),
                 !.circ = Sub2(st.circ, ask, o.bf),
-                !.w = [w1 EXCEPT ![to] = Add2(@, ask, o.ret)]]
+                \* the proceeds go to a user's wallet or, when so addressed, to the pool's fee collector
+                !.w = IF to = "collector" THEN w1 ELSE [w1 EXCEPT ![to] = Add2(@, ask, o.ret)],
+                !.col = IF to = "collector" THEN Add2(st.col, ask, o.ret) ELSE st.col]
 
 \* C15: the spread rules (EffSpread, SpreadBound, SpreadInside) are in Slip.tla, shared with the three-asset pool
 \* the reported spread may not understate the loss against the pool price
